@@ -208,6 +208,12 @@ def run(ctx) -> int:
 
     def probe(r, count):
         nonlocal n_dir
+        for cd in docs.corner_docs():        # the hand-made corner documents first
+            for ci in (1, 2, 4):
+                n_dir += 1
+                d = direct_property(configs.STANDARD[ci], cd)
+                if d:
+                    return {"config": configs.STANDARD[ci], "src": cd, **d}
         for k in range(count):
             cfg = configs.STANDARD[k % len(configs.STANDARD)] if k % 2 else configs.random_config(r)
             src, u = producer_doc(r)
